@@ -66,6 +66,7 @@ fn build_doc(rng: &mut Rng, nsteps: usize) -> (Doc, Vec<SendPlan>) {
     let mut run = Node::new("run", Kind::State);
     let mut plans: Vec<SendPlan> = Vec::new();
     let ids = ["i1", "i2", "i3"];
+    let mut heartbeats: Vec<Trans> = Vec::new();
     for k in 0..nsteps {
         let mut t = Trans { events: vec![format!("go.{}", k)], label: format!("go{}", k), ..Default::default() };
         t.content.push(Exec::Mark(format!("go{}", k), vec![Expr::Var("x".into())]));
@@ -108,8 +109,20 @@ fn build_doc(rng: &mut Rng, nsteps: usize) -> (Doc, Vec<SendPlan>) {
                 }
             }
         }
+        // heartbeat pattern: the handler of a delivered delayed event re-arms a delayed send with the same id
+        if rng.chance(1, 3) {
+            let (ms, text) = spelled(rng);
+            let id = rng.pick(&ids[..]).to_string();
+            t.content.push(Exec::Send { event: format!("hb.{}", k), target: None, delay_ms: ms, id: Some(id.clone()), params: vec![], delay_text: Some(text), delay_expr: false, idlocation: None });
+            let (ms2, text2) = spelled(rng);
+            let mut h = Trans { events: vec![format!("hb.{}", k)], label: format!("hb{}", k), ..Default::default() };
+            h.content.push(Exec::Mark(format!("hb{}", k), vec![Expr::EventName]));
+            h.content.push(Exec::Send { event: format!("d.hb.{}", k), target: None, delay_ms: ms2, id: Some(id), params: vec![("v".into(), Expr::Var("x".into()))], delay_text: Some(text2), delay_expr: false, idlocation: None });
+            heartbeats.push(h);
+        }
         run.trans.push(t);
     }
+    run.trans.extend(heartbeats);
     run.trans.push(Trans {
         events: vec!["d".into()],
         label: "deliver".into(),
@@ -224,32 +237,33 @@ impl Property for C16Prop {
         #[derive(Debug, Clone)]
         struct Item {
             item: u64,
+            sched_seq: u64,
             sched_time: u64,
             delay: i64,
             due: u64,
             cancel: Option<(u64, bool, u64)>, // (time, fired-before-cancel, seq)
-            cancelled_by_firing_item: Option<u64>, // the guard was dropped by a timer callback delivering this other item
+            cancelled_by_firing_item: Option<(u64, Option<u64>)>, // the guard was dropped by the timer callback of this other item (item, seq of its delivery if it had already delivered)
             fire_time: Option<u64>,
             deliveries: Vec<(u64, String, Option<Vec<(String, String)>>, u64)>, // (time, event, params, seq)
             discarded: bool,
         }
         let mut items: Vec<Item> = Vec::new();
         let mut own_timers: BTreeSet<usize> = BTreeSet::new();
-        let mut firing: BTreeMap<usize, u64> = BTreeMap::new();
+        let mut firing: BTreeMap<usize, (u64, Option<u64>)> = BTreeMap::new();
         let end_seq = session_end_seq(v.log, sid);
         let chan = chan_of_session(v, sid);
         for r in v.log {
             match &r.kind {
                 RecKind::TimerSched { timer, item, due, delay } if r.session == sid => {
                     own_timers.insert(*timer);
-                    items.push(Item { item: *item, sched_time: r.time, delay: *delay, due: *due, cancel: None, cancelled_by_firing_item: None, fire_time: None, deliveries: vec![], discarded: false });
+                    items.push(Item { item: *item, sched_seq: r.seq, sched_time: r.time, delay: *delay, due: *due, cancel: None, cancelled_by_firing_item: None, fire_time: None, deliveries: vec![], discarded: false });
                 }
                 RecKind::TimerCancel { item, fired } => {
                     let by = firing.get(&r.task).copied();
                     if let Some(i) = items.iter_mut().find(|i| i.item == *item) {
                         if i.cancel.is_none() {
                             i.cancel = Some((r.time, *fired, r.seq));
-                            if by != Some(*item) {
+                            if by.map(|b| b.0) != Some(*item) {
                                 i.cancelled_by_firing_item = by;
                             }
                         }
@@ -258,14 +272,17 @@ impl Property for C16Prop {
                 RecKind::TimerFire { item } => {
                     if let Some(i) = items.iter_mut().find(|i| i.item == *item) {
                         i.fire_time = Some(r.time);
-                        firing.insert(r.task, *item);
+                        firing.insert(r.task, (*item, None));
                     }
                 }
                 RecKind::TimerFireDone { .. } => {
                     firing.remove(&r.task);
                 }
                 RecKind::Send { chan: c, ev, ok: true, .. } => {
-                    if let Some(item) = firing.get(&r.task) {
+                    if let Some((item, delivered)) = firing.get_mut(&r.task) {
+                        if delivered.is_none() {
+                            *delivered = Some(r.seq);
+                        }
                         if let Some(i) = items.iter_mut().find(|i| i.item == *item) {
                             if Some(*c) == chan {
                                 i.deliveries.push((r.time, ev_name(ev).to_string(), ev.as_ref().and_then(|e| e.params.clone()), r.seq));
@@ -379,8 +396,16 @@ impl Property for C16Prop {
                             if !it.deliveries.is_empty() {
                                 vio.push(viol("C16", "C16.cancel-ignored", format!("'{}' was cancelled at {} ms (due {}) and still delivered", ev, ct, it.due), "cancel-ignored".into()));
                             }
-                        } else if it.cancelled_by_firing_item.is_some() && !at_end {
-                            vio.push(viol("C16", "C16.cancel-overreach", format!("pending delayed send '{}' (id {:?}) was cancelled by the delivery callback of an earlier send with the same id", ev, sendid), "same-id-reuse:callback-removes-later-guard".into()));
+                        } else if let (Some((_, dseq)), false) = (it.cancelled_by_firing_item, at_end) {
+                            if dseq.map(|d| it.sched_seq > d).unwrap_or(false) {
+                                // not the known same-id overlap: this send was executed only after the earlier one had
+                                // been delivered (e.g. by the handler of the delivered event); a callback that has
+                                // delivered has no business with the bookkeeping any more
+                                probes.hit("rearmed_same_id_after_fire");
+                                vio.push(viol("C16", "C16.cancel-overreach", format!("delayed send '{}' (id {:?}), executed after the earlier send with that id had been delivered, was cancelled by that earlier send's timer callback", ev, sendid), "callback-removes-guard-of-send-executed-after-its-delivery".into()));
+                            } else {
+                                vio.push(viol("C16", "C16.cancel-overreach", format!("pending delayed send '{}' (id {:?}) was cancelled by the delivery callback of an earlier send with the same id", ev, sendid), "same-id-reuse:callback-removes-later-guard".into()));
+                            }
                         } else if replaced_by_same_id && !at_end {
                             vio.push(viol("C16", "C16.lost", format!("pending delayed send '{}' (id {:?}) was dropped when a later send reused its id; no <cancel> was executed for it", ev, sendid), "same-id-reuse".into()));
                         } else if !at_end {
